@@ -1,75 +1,15 @@
 (* C04: facts about the minimal CScriptNum encoding (Script/Bytes.v num_encode) of the numbers
-   Miniscript pushes (0 <= z < 2^31): explicit byte lists by range, hence length, minimality,
-   decoding, and agreement with the code's script_num_size. *)
+   Miniscript pushes (0 <= z < 2^31): explicit byte lists by range, hence the exact length and
+   agreement with the code's script_num_size; minimality and decoding come from ScriptNumProofs. *)
 From Coq Require Import Lia.
-From Verif Require Import Bytes.
+From Verif Require Import Bytes ScriptNumProofs.
 Local Open Scope Z_scope.
-
-Lemma le_bytes_fuel_zero f : le_bytes_fuel f 0 = [].
-Proof. destruct f; reflexivity. Qed.
-
-Lemma le_bytes_fuel_step f z : 0 < z ->
-  le_bytes_fuel (S f) z = Z.to_N (z mod 256) :: le_bytes_fuel f (z / 256).
-Proof. intros Hz. cbn [le_bytes_fuel]. destruct (Z.leb_spec z 0); [lia|reflexivity]. Qed.
-
-Lemma le_bytes_fuel_irrelevant : forall f z, 0 <= z < 256 ^ Z.of_nat f ->
-  forall f', (f <= f')%nat -> le_bytes_fuel f' z = le_bytes_fuel f z.
-Proof.
-  induction f as [|f IH]; intros z Hz f' Hf.
-  - cbn in Hz. assert (z = 0) by lia. subst. rewrite !le_bytes_fuel_zero. reflexivity.
-  - destruct f' as [|f']; [lia|].
-    destruct (Z.eq_dec z 0) as [->|Hnz]; [rewrite !le_bytes_fuel_zero; reflexivity|].
-    rewrite !le_bytes_fuel_step by lia. f_equal. apply IH; [|lia].
-    rewrite Nat2Z.inj_succ, Z.pow_succ_r in Hz by lia.
-    split; [apply Z.div_pos; lia|]. apply Z.div_lt_upper_bound; lia.
-Qed.
-
-Lemma le_bytes_fuel4 z : 0 <= z < 4294967296 -> le_bytes z = le_bytes_fuel 4 z.
-Proof.
-  intros Hz. unfold le_bytes.
-  destruct (Z.eq_dec z 0) as [->|Hnz]; [reflexivity|].
-  set (F := S (Z.to_nat (Z.log2 z))).
-  assert (HF : 0 <= z < 256 ^ Z.of_nat F).
-  { split; [lia|]. unfold F. rewrite Nat2Z.inj_succ, Z2Nat.id by apply Z.log2_nonneg.
-    destruct (Z.log2_spec z ltac:(lia)) as [_ H2].
-    eapply Z.lt_le_trans; [exact H2|]. apply Z.pow_le_mono_l. lia. }
-  rewrite <- (le_bytes_fuel_irrelevant F z HF (4 + F)%nat ltac:(lia)).
-  apply (le_bytes_fuel_irrelevant 4 z); [change (256 ^ Z.of_nat 4) with 4294967296; lia|lia].
-Qed.
 
 (* the four bytes of z, little endian *)
 Definition b0 (z : Z) : N := Z.to_N (z mod 256).
 Definition b1 (z : Z) : N := Z.to_N ((z / 256) mod 256).
 Definition b2 (z : Z) : N := Z.to_N ((z / 65536) mod 256).
 Definition b3 (z : Z) : N := Z.to_N ((z / 16777216) mod 256).
-
-Lemma le_bytes_cases z : 0 <= z < 4294967296 ->
-  le_bytes z =
-  if z <=? 0 then [] else
-  if z <? 256 then [b0 z] else
-  if z <? 65536 then [b0 z; b1 z] else
-  if z <? 16777216 then [b0 z; b1 z; b2 z] else [b0 z; b1 z; b2 z; b3 z].
-Proof.
-  intros Hz. rewrite le_bytes_fuel4 by exact Hz. unfold b0, b1, b2, b3.
-  destruct (Z.leb_spec z 0) as [H0|H0]; [assert (z = 0) by lia; subst; reflexivity|].
-  rewrite le_bytes_fuel_step by lia.
-  destruct (Z.ltb_spec z 256) as [H1|H1].
-  { rewrite Z.div_small by lia. rewrite le_bytes_fuel_zero. reflexivity. }
-  assert (D1 : 0 < z / 256) by (apply Z.div_str_pos; lia).
-  rewrite le_bytes_fuel_step by lia.
-  rewrite Z.div_div by lia. change (256 * 256) with 65536.
-  destruct (Z.ltb_spec z 65536) as [H2|H2].
-  { rewrite (Z.div_small z 65536) by lia. rewrite le_bytes_fuel_zero. reflexivity. }
-  assert (D2 : 0 < z / 65536) by (apply Z.div_str_pos; lia).
-  rewrite le_bytes_fuel_step by lia.
-  rewrite Z.div_div by lia. change (65536 * 256) with 16777216.
-  destruct (Z.ltb_spec z 16777216) as [H3|H3].
-  { rewrite (Z.div_small z 16777216) by lia. rewrite le_bytes_fuel_zero. reflexivity. }
-  assert (D3 : 0 < z / 16777216) by (apply Z.div_str_pos; lia).
-  rewrite le_bytes_fuel_step by lia.
-  rewrite Z.div_div by lia. change (16777216 * 256) with 4294967296.
-  rewrite (Z.div_small z 4294967296) by lia. rewrite le_bytes_fuel_zero. reflexivity.
-Qed.
 
 (* ---- the encoding of 0 <= z < 2^31, by range ---- *)
 Inductive enc_shape (z : Z) : bytes -> Prop :=
@@ -89,45 +29,46 @@ Lemma num_encode_shape z : 0 <= z < 2147483648 -> enc_shape z (num_encode z).
 Proof.
   intros Hz. unfold num_encode.
   destruct (Z.eqb_spec z 0) as [->|Hnz]; [constructor; reflexivity|].
-  replace (z <? 0) with false by lia. rewrite Z.abs_eq by lia.
-  rewrite le_bytes_cases by lia.
-  destruct (Z.leb_spec z 0) as [H0|H0]; [lia|].
-  destruct (Z.ltb_spec z 256) as [H1|H1].
-  { cbn [rev app]. unfold b0 at 1. rewrite byte_small by lia.
-    destruct (N.leb_spec 128 (Z.to_N z)); [apply Es1p|apply Es1]; lia. }
-  destruct (Z.ltb_spec z 65536) as [H2|H2].
-  { cbn [rev app]. unfold b1 at 1.
-    assert (0 <= z / 256 < 256) by (split; [apply Z.div_pos; lia|apply Z.div_lt_upper_bound; lia]).
-    rewrite byte_small by lia.
-    destruct (N.leb_spec 128 (Z.to_N (z / 256))) as [Hb|Hb].
-    - apply Es2p. assert (128 <= z / 256) by lia. pose proof (Z.mul_div_le z 256 ltac:(lia)). lia.
-    - cbn [rev app]. apply Es2. assert (z / 256 < 128) by lia.
-      pose proof (Z.div_mod z 256 ltac:(lia)). pose proof (Z.mod_pos_bound z 256 ltac:(lia)). lia. }
-  destruct (Z.ltb_spec z 16777216) as [H3|H3].
-  { cbn [rev app]. unfold b2 at 1.
-    assert (0 <= z / 65536 < 256) by (split; [apply Z.div_pos; lia|apply Z.div_lt_upper_bound; lia]).
-    rewrite byte_small by lia.
-    destruct (N.leb_spec 128 (Z.to_N (z / 65536))) as [Hb|Hb].
-    - apply Es3p. assert (128 <= z / 65536) by lia. pose proof (Z.mul_div_le z 65536 ltac:(lia)). lia.
-    - cbn [rev app]. apply Es3. assert (z / 65536 < 128) by lia.
-      pose proof (Z.div_mod z 65536 ltac:(lia)). pose proof (Z.mod_pos_bound z 65536 ltac:(lia)). lia. }
-  cbn [rev app]. unfold b3 at 1.
-  assert (0 <= z / 16777216 < 128) by (split; [apply Z.div_pos; lia|apply Z.div_lt_upper_bound; lia]).
-  rewrite byte_small by lia.
-  destruct (N.leb_spec 128 (Z.to_N (z / 16777216))) as [Hb|Hb]; [lia|].
-  cbn [rev app]. apply Es4. lia.
+  destruct (Z.ltb_spec z 0); [lia|]. rewrite Z.abs_eq by lia.
+  assert (D1 : 0 <= z / 256) by (apply Z.div_pos; lia).
+  assert (D2 : 0 <= z / 65536) by (apply Z.div_pos; lia).
+  assert (D3 : 0 <= z / 16777216) by (apply Z.div_pos; lia).
+  assert (E2 : z / 256 / 256 = z / 65536) by (rewrite Z.div_div by lia; reflexivity).
+  assert (E3 : z / 65536 / 256 = z / 16777216) by (rewrite Z.div_div by lia; reflexivity).
+  assert (U1 : z / 256 < 256 -> z < 65536) by (intros; pose proof (Z.mul_succ_div_gt z 256 ltac:(lia)); lia).
+  assert (L1 : 128 <= z / 256 -> 32768 <= z) by (intros; pose proof (Z.mul_div_le z 256 ltac:(lia)); lia).
+  assert (U1' : z / 256 < 128 -> z < 32768) by (intros; pose proof (Z.mul_succ_div_gt z 256 ltac:(lia)); lia).
+  assert (L1' : 256 <= z / 256 -> 65536 <= z) by (intros; pose proof (Z.mul_div_le z 256 ltac:(lia)); lia).
+  assert (U2 : z / 65536 < 128 -> z < 8388608) by (intros; pose proof (Z.mul_succ_div_gt z 65536 ltac:(lia)); lia).
+  assert (L2 : 128 <= z / 65536 -> 8388608 <= z) by (intros; pose proof (Z.mul_div_le z 65536 ltac:(lia)); lia).
+  assert (U2' : z / 65536 < 256 -> z < 16777216) by (intros; pose proof (Z.mul_succ_div_gt z 65536 ltac:(lia)); lia).
+  assert (L2' : 256 <= z / 65536 -> 16777216 <= z) by (intros; pose proof (Z.mul_div_le z 65536 ltac:(lia)); lia).
+  assert (U3 : z / 16777216 < 128) by (apply Z.div_lt_upper_bound; lia).
+  cbn [enc_mag].
+  destruct (Z.ltb_spec z 128).
+  { rewrite N.add_0_r. replace (Z.to_N z) with (b0 z) by (unfold b0; rewrite byte_small by lia; reflexivity).
+    apply Es1. lia. }
+  destruct (Z.ltb_spec z 256).
+  { replace (Z.to_N z) with (b0 z) by (unfold b0; rewrite byte_small by lia; reflexivity). apply Es1p. lia. }
+  fold (b0 z). rewrite E2.
+  destruct (Z.ltb_spec (z / 256) 128).
+  { rewrite N.add_0_r. replace (Z.to_N (z / 256)) with (b1 z) by (unfold b1; rewrite byte_small by lia; reflexivity).
+    apply Es2. lia. }
+  destruct (Z.ltb_spec (z / 256) 256).
+  { replace (Z.to_N (z / 256)) with (b1 z) by (unfold b1; rewrite byte_small by lia; reflexivity). apply Es2p. lia. }
+  fold (b1 z). rewrite E3.
+  destruct (Z.ltb_spec (z / 65536) 128).
+  { rewrite N.add_0_r. replace (Z.to_N (z / 65536)) with (b2 z) by (unfold b2; rewrite byte_small by lia; reflexivity).
+    apply Es3. lia. }
+  destruct (Z.ltb_spec (z / 65536) 256).
+  { replace (Z.to_N (z / 65536)) with (b2 z) by (unfold b2; rewrite byte_small by lia; reflexivity). apply Es3p. lia. }
+  fold (b2 z).
+  destruct (Z.ltb_spec (z / 16777216) 128); [|lia].
+  rewrite N.add_0_r. replace (Z.to_N (z / 16777216)) with (b3 z) by (unfold b3; rewrite byte_small by lia; reflexivity).
+  apply Es4. lia.
 Qed.
 
 (* ---- consequences ---- *)
-Lemma b0_bound z : (b0 z < 256)%N.
-Proof. unfold b0. pose proof (Z.mod_pos_bound z 256 ltac:(lia)). lia. Qed.
-Lemma b1_bound z : (b1 z < 256)%N.
-Proof. unfold b1. pose proof (Z.mod_pos_bound (z / 256) 256 ltac:(lia)). lia. Qed.
-Lemma b2_bound z : (b2 z < 256)%N.
-Proof. unfold b2. pose proof (Z.mod_pos_bound (z / 65536) 256 ltac:(lia)). lia. Qed.
-Lemma b3_bound z : (b3 z < 256)%N.
-Proof. unfold b3. pose proof (Z.mod_pos_bound (z / 16777216) 256 ltac:(lia)). lia. Qed.
-
 Definition num_len (z : Z) : N :=
   if z =? 0 then 0%N else if z <? 128 then 1%N else if z <? 32768 then 2%N
   else if z <? 8388608 then 3%N else 4%N.
@@ -143,86 +84,16 @@ Proof.
       end end; reflexivity.
 Qed.
 
-(* the decomposition of z into its bytes *)
-Lemma bytes_sum z : 0 <= z < 4294967296 ->
-  z = Z.of_N (b0 z) + 256 * (Z.of_N (b1 z) + 256 * (Z.of_N (b2 z) + 256 * Z.of_N (b3 z))).
-Proof.
-  intros Hz. unfold b0, b1, b2, b3.
-  pose proof (Z.mod_pos_bound z 256 ltac:(lia)).
-  pose proof (Z.mod_pos_bound (z / 256) 256 ltac:(lia)).
-  pose proof (Z.mod_pos_bound (z / 65536) 256 ltac:(lia)).
-  pose proof (Z.mod_pos_bound (z / 16777216) 256 ltac:(lia)).
-  rewrite !Z2N.id by lia.
-  pose proof (Z.div_mod z 256 ltac:(lia)) as E0.
-  pose proof (Z.div_mod (z / 256) 256 ltac:(lia)) as E1.
-  pose proof (Z.div_mod (z / 65536) 256 ltac:(lia)) as E2.
-  pose proof (Z.div_mod (z / 16777216) 256 ltac:(lia)) as E3.
-  rewrite Z.div_div in E1 by lia. change (256 * 256) with 65536 in E1.
-  rewrite Z.div_div in E2 by lia. change (65536 * 256) with 16777216 in E2.
-  rewrite Z.div_div in E3 by lia. change (16777216 * 256) with 4294967296 in E3.
-  rewrite (Z.div_small z 4294967296) in E3 by lia. lia.
-Qed.
-
-Lemma high_zero z k : 0 <= z < k -> 0 < k -> z / k = 0.
-Proof. intros. apply Z.div_small. lia. Qed.
-
 Lemma num_decode_encode z : 0 <= z < 2147483648 -> num_decode (num_encode z) = z.
 Proof.
-  intros Hz. pose proof (bytes_sum z ltac:(lia)) as Hsum.
-  pose proof (b0_bound z). pose proof (b1_bound z). pose proof (b2_bound z). pose proof (b3_bound z).
-  destruct (num_encode_shape z Hz) as [R|R|R|R|R|R|R|R]; unfold num_decode; cbn [rev app length le_val].
-  - lia.
-  - assert (b1 z = 0%N) by (unfold b1; rewrite (high_zero z 256) by lia; reflexivity).
-    assert (b2 z = 0%N) by (unfold b2; rewrite (high_zero z 65536) by lia; reflexivity).
-    assert (b3 z = 0%N) by (unfold b3; rewrite (high_zero z 16777216) by lia; reflexivity).
-    destruct (N.leb_spec 128 (b0 z)); lia.
-  - assert (b1 z = 0%N) by (unfold b1; rewrite (high_zero z 256) by lia; reflexivity).
-    assert (b2 z = 0%N) by (unfold b2; rewrite (high_zero z 65536) by lia; reflexivity).
-    assert (b3 z = 0%N) by (unfold b3; rewrite (high_zero z 16777216) by lia; reflexivity).
-    change (N.leb 128 0) with false. cbv iota. lia.
-  - assert (b2 z = 0%N) by (unfold b2; rewrite (high_zero z 65536) by lia; reflexivity).
-    assert (b3 z = 0%N) by (unfold b3; rewrite (high_zero z 16777216) by lia; reflexivity).
-    destruct (N.leb_spec 128 (b1 z)); [|lia].
-    change (Z.of_nat 2 - 1) with 1. lia.
-  - assert (b2 z = 0%N) by (unfold b2; rewrite (high_zero z 65536) by lia; reflexivity).
-    assert (b3 z = 0%N) by (unfold b3; rewrite (high_zero z 16777216) by lia; reflexivity).
-    change (N.leb 128 0) with false. cbv iota. lia.
-  - assert (b3 z = 0%N) by (unfold b3; rewrite (high_zero z 16777216) by lia; reflexivity).
-    destruct (N.leb_spec 128 (b2 z)); [|lia].
-    change (Z.of_nat 3 - 1) with 2. change (256 ^ 2) with 65536. lia.
-  - assert (b3 z = 0%N) by (unfold b3; rewrite (high_zero z 16777216) by lia; reflexivity).
-    change (N.leb 128 0) with false. cbv iota. lia.
-  - destruct (N.leb_spec 128 (b3 z)); [|lia].
-    change (Z.of_nat 4 - 1) with 3. change (256 ^ 3) with 16777216. lia.
+  intros Hz. destruct (Z.eq_dec z 0) as [->|Hnz]; [reflexivity|].
+  destruct (num_encode_pos z ltac:(lia)) as [H1 _]. unfold num_decode. rewrite H1. reflexivity.
 Qed.
 
 Lemma num_minimal_encode z : 0 <= z < 2147483648 -> num_minimal (num_encode z) = true.
 Proof.
-  intros Hz. pose proof (bytes_sum z ltac:(lia)) as Hsum.
-  pose proof (b0_bound z). pose proof (b1_bound z). pose proof (b2_bound z). pose proof (b3_bound z).
-  assert (Hland : forall x : N, (x < 128)%N -> N.land x 127 = x).
-  { intros x Hx. change 127%N with (N.ones 7). rewrite N.land_ones. apply N.mod_small. exact Hx. }
-  destruct (num_encode_shape z Hz) as [R|R|R|R|R|R|R|R]; unfold num_minimal; cbn [rev app].
-  - reflexivity.
-  - assert (b1 z = 0%N) by (unfold b1; rewrite (high_zero z 256) by lia; reflexivity).
-    assert (b2 z = 0%N) by (unfold b2; rewrite (high_zero z 65536) by lia; reflexivity).
-    assert (b3 z = 0%N) by (unfold b3; rewrite (high_zero z 16777216) by lia; reflexivity).
-    rewrite Hland by lia. destruct (N.eqb_spec (b0 z) 0); [lia|reflexivity].
-  - assert (b1 z = 0%N) by (unfold b1; rewrite (high_zero z 256) by lia; reflexivity).
-    assert (b2 z = 0%N) by (unfold b2; rewrite (high_zero z 65536) by lia; reflexivity).
-    assert (b3 z = 0%N) by (unfold b3; rewrite (high_zero z 16777216) by lia; reflexivity).
-    cbn [N.land N.eqb]. destruct (N.leb_spec 128 (b0 z)); [reflexivity|lia].
-  - assert (b2 z = 0%N) by (unfold b2; rewrite (high_zero z 65536) by lia; reflexivity).
-    assert (b3 z = 0%N) by (unfold b3; rewrite (high_zero z 16777216) by lia; reflexivity).
-    assert (b1 z < 128)%N by lia. rewrite Hland by lia. destruct (N.eqb_spec (b1 z) 0); [lia|reflexivity].
-  - assert (b2 z = 0%N) by (unfold b2; rewrite (high_zero z 65536) by lia; reflexivity).
-    assert (b3 z = 0%N) by (unfold b3; rewrite (high_zero z 16777216) by lia; reflexivity).
-    cbn [N.land N.eqb]. destruct (N.leb_spec 128 (b1 z)); [reflexivity|lia].
-  - assert (b3 z = 0%N) by (unfold b3; rewrite (high_zero z 16777216) by lia; reflexivity).
-    assert (b2 z < 128)%N by lia. rewrite Hland by lia. destruct (N.eqb_spec (b2 z) 0); [lia|reflexivity].
-  - assert (b3 z = 0%N) by (unfold b3; rewrite (high_zero z 16777216) by lia; reflexivity).
-    cbn [N.land N.eqb]. destruct (N.leb_spec 128 (b2 z)); [reflexivity|lia].
-  - assert (b3 z < 128)%N by lia. rewrite Hland by lia. destruct (N.eqb_spec (b3 z) 0); [lia|reflexivity].
+  intros Hz. destruct (Z.eq_dec z 0) as [->|Hnz]; [reflexivity|].
+  apply (num_encode_pos z ltac:(lia)).
 Qed.
 
 (* a one-byte encoding is the number itself *)
@@ -233,8 +104,4 @@ Proof.
 Qed.
 
 Lemma num_operand4_encode z : 0 <= z < 2147483648 -> num_operand 4 (num_encode z) = Some z.
-Proof.
-  intros Hz. unfold num_operand. rewrite num_encode_len, num_minimal_encode, num_decode_encode by exact Hz.
-  replace (N.leb (num_len z) 4) with true; [reflexivity|].
-  unfold num_len. repeat match goal with |- context [if ?c then _ else _] => destruct c end; reflexivity.
-Qed.
+Proof. intros Hz. apply num_roundtrip; [reflexivity|exact Hz]. Qed.
